@@ -35,6 +35,14 @@ CLAIMS = {
             "Decides that after any failed block the code is again bisimilar to the reference from its initial state with "
             "the aborting mark pending, i.e. later blocks are parsed as on their own; earlier blocks are never touched.",
             "5 C04"),
+    "C05": ("abstract interpretation of write_string (default stack) over symbolic content, tokenisation of the written "
+            "template by the splitter's own mark regex and run through the reference transducer of grammar G; stack pairing; "
+            "writer purity rule",
+            "Narrow claim: decides that every block the writer emits (for whitespace formats) is derivable in the reader's "
+            "grammar with the same hole roles - same block kinds in order, no failed block, each key / field / value / comment "
+            "slice containing exactly its content, values as one brace-enclosed field - that the default stacks pair up and "
+            "that the writer is deterministic. Does not decide value equality or the byte-for-byte fixpoint.",
+            "5 C05"),
     "C06": ("abstract interpretation of writer.write over symbolic strings and linear integer forms (template extraction) "
             "compared with the reference template of the BibtexFormat contract; option-liveness and index-predicate rules",
             "Decides, for every library shape up to 5 blocks / 3 fields and every option setting (symbolic indent, separator, "
@@ -97,6 +105,17 @@ CLAIMS = {
             "Decides frame (only string-typed values, name-part lists, @string values change and stay strings), error "
             "containment and option handling. Not decided: the round trip (pylatexenc).",
             "5 C18"),
+    "C12": ("abstract interpretation of split_multiple_persons_names over a lazy stream of character classes in product with the "
+            "reference separator automaton R-AND (finite bisimulation, relational position abstraction)",
+            "Decides the separator rule and the span bookkeeping (hence conservation of characters) for every brace-balanced "
+            "input over the character classes; the merge literal; the name-field scope of the middlewares.",
+            "5 C12"),
+    "C13": ("abstract interpretation of the name tokeniser in product with a reference tokeniser (every character once, "
+            "InvalidNameError exactly for the four error kinds) + partition decision table over word case classes + "
+            "middleware containment",
+            "Decides conservation of characters / words per comma section, the error kinds, containment into a "
+            "middleware-error block, and the First/von/Last/Jr partition for all case-class patterns up to 5 (6) words.",
+            "5 C13"),
     "C19": ("bounded-history abstract exploration of Entry's mapping API against an insertion-ordered dict model; "
             "single-attribute perturbation table for structural equality",
             "Decides results and field order for every operation from every mapping state within the bound, agreement of "
